@@ -707,4 +707,36 @@ theorem strLines_no_nl (s : List Char) : ∀ l ∈ linesList s, '\n' ∉ l := by
   obtain ⟨r, hr, rfl⟩ := hl
   exact stripEol_no_nl r (rawLines_nl_last s r hr)
 
+/-! ## `StringBuf` histories -/
+
+theorem bufStep_eq (st : List Char) (o : BufOp) : bufStep st o = st ++ o.text := by
+  cases o <;> simp [bufStep, BufOp.text]
+
+theorem bufTrace_length (st : List Char) (es : List BufEv) :
+    (bufTrace st es).length = countReads es := by
+  induction es generalizing st with
+  | nil => simp [bufTrace, countReads]
+  | cons e es ih => cases e <;> simp [bufTrace, countReads, ih]
+
+/-- the read that follows the prefix `pre` returns the initial contents plus
+everything `pre` pushed -/
+theorem bufTrace_read (st : List Char) (pre post : List BufEv) :
+    (bufTrace st (pre ++ .read :: post))[countReads pre]? = some (st ++ pushedText pre) := by
+  induction pre generalizing st with
+  | nil => simp [bufTrace, countReads, pushedText, bufAsString]
+  | cons e pre ih =>
+    cases e with
+    | op o =>
+      simp only [List.cons_append, bufTrace, countReads, pushedText]
+      rw [ih, bufStep_eq, List.append_assoc]
+    | read =>
+      simp only [List.cons_append, bufTrace, countReads, pushedText, List.getElem?_cons_succ]
+      exact ih st
+
+theorem bufTrace_ops_read (st : List Char) (log : List BufOp) :
+    bufTrace st (log.map .op ++ [.read]) = [bufRun st log] := by
+  induction log generalizing st with
+  | nil => simp [bufTrace, bufRun]
+  | cons o log ih => simp only [List.map_cons, List.cons_append, bufTrace, ih, bufRun, List.foldl_cons]
+
 end RotoV.Strings
